@@ -151,7 +151,7 @@ class Prop:
             holder["w"] = w
             return w.body
 
-        sim, cps = th.explore(sc, factory, out)
+        sim, cps = th.explore(sc, factory, out, focus=("trampoline.py", "trampolinescheduler.py", "currentthreadscheduler.py"))
         w = holder["w"]
         acts = list(w.acts.values())
         ran = [a for a in acts if a["start"] is not None]
